@@ -138,7 +138,7 @@ func (d *Decoder) DecodeTag() (tag int, wireType WireType, err error) {
 	if err != nil {
 		return 0, -1, fmt.Errorf("invalid data at byte %d: %w", d.offset, err)
 	}
-	if n < 1 || v < 1 || (v>>3) > MaxTagValue {
+	if n < 1 || (v>>3) < 1 || (v>>3) > MaxTagValue {
 		return 0, -1, fmt.Errorf("invalid tag value (%d) at byte %d: %w", v, d.offset, ErrInvalidFieldTag)
 	}
 	d.tagStart = d.offset
